@@ -98,8 +98,18 @@ class C19(Prop):
             port_sets = [rig.free_ports(2)]
             if self.shard == 0 and all(udp.can_bind(p) for p in default_ports):
                 port_sets.insert(0, None)   # the library's own defaults (free inside the private network namespace)
+            inside = {"n": 0}
+
+            def consumer(device):
+                # a consumer that builds device objects of its own while it is being called back (copies, test doubles, merged
+                # views): the class/category rule holds there as everywhere else
+                if inside["n"] < 4 and not udp.is_sentinel(device):
+                    inside["n"] += 1
+                    self._matrix(acc, ":inside-the-callback")
+                return rig.log.callback(device)
+
             for ports in port_sets:
-                bridge = self.bridge.SwitcherBridge(rig.log.callback) if ports is None else self.bridge.SwitcherBridge(rig.log.callback, ports)
+                bridge = self.bridge.SwitcherBridge(consumer) if ports is None else self.bridge.SwitcherBridge(consumer, ports)
                 use = default_ports if ports is None else ports
                 rig.log.raise_on = lambda dev, n: n % 5 == 0     # a user callback that sometimes fails
                 async with bridge:
@@ -237,8 +247,71 @@ class C19(Prop):
                 except Exception:
                     pass
                 await dev.start()
+            # the device given by host name: both API classes, one after the other, each on the control port of its own protocol type
+            import socket as _socket
+
+            def tcp_free(port):
+                s_ = _socket.socket()
+                try:
+                    s_.bind(("127.0.0.1", port))
+                    return True
+                except OSError:
+                    return False
+                finally:
+                    s_.close()
+
+            if self.shard == 0 and tcp_free(9957) and tcp_free(10000):
+                local = td.FakeDevice("127.0.0.1")
+                await local.start()
+                try:
+                    for t in (1, 2, 1, 2):
+                        api_cls = self.api.SwitcherType1Api if t == 1 else self.api.SwitcherType2Api
+                        probe = api_cls("localhost", "a1b2c3", "18")
+                        n0 = len(local.conns)
+                        acc.ev()
+                        acc.distinct()
+                        try:
+                            await probe.connect()
+                            for _ in range(50):
+                                if len(local.conns) > n0:
+                                    break
+                                await asyncio.sleep(0)
+                            got_port = local.conns[-1].port if len(local.conns) > n0 else None
+                            if got_port != TCP[t]:
+                                acc.violation("wrong-tcp-port:after-use", f"SwitcherType{t}Api('localhost') connected to port {got_port}, want {TCP[t]} "
+                                              f"(the other API class had used the same host name before)", {"api": t, "got": got_port})
+                            acc.count("workload_connects_by_host_name")
+                        except OSError as exc:
+                            acc.count("workload_host_name_connect_failed")
+                        finally:
+                            try:
+                                await probe.disconnect()
+                            except Exception:
+                                pass
+                finally:
+                    await local.stop()
         finally:
             await trig.close()
+
+    def _matrix(self, acc, where):
+        dv = self.device
+        for cname, cat in CLASS_CATEGORY.items():
+            cls = getattr(dv, cname)
+            for t in dv.DeviceType:
+                acc.ev()
+                should = t.category.name == cat
+                try:
+                    cls(**self._args_for(cls, t))
+                    accepted = True
+                except ValueError:
+                    accepted = False
+                except Exception as exc:
+                    acc.violation("constructor-crashed" + where, f"{cname}({t.name}) raised {type(exc).__name__}", {"class": cname, "type": t.name})
+                    continue
+                if accepted != should:
+                    acc.violation("class-accepts-wrong-category" + where, f"{cname} {'accepted' if accepted else 'refused'} {t.name} (category {t.category.name}) "
+                                  f"when built {where.strip(':').replace('-', ' ')}", {"class": cname, "type": t.name})
+        acc.count("matrices_built" + where.replace(":", "_").replace("-", "_"))
 
     def _args_for(self, cls, dtype):
         dv = self.device
